@@ -10,3 +10,6 @@ CONSTANTS
   Kinds = {"do","loop","forin","fn","pcall","co"}
   Handlers = {"ok","raise","nil","nometa"}
   ViewHist = 0
+  ErrKinds = {"str","tbl"}
+  XHandlers = {}
+  Battery = FALSE
